@@ -80,7 +80,8 @@ func analyseRelease(m *model.Model, sc *model.SC) *releaseAnalysis {
 			if op.Arg != nil {
 				switch op.Arg.Kind {
 				case model.AVMethodVal:
-					if op.Arg.Method != nil && op.Arg.Method.Name() == "Unsubscribe" {
+					// Add(x.Unsubscribe), and the releasing method values of timers / closers: Add(ticker.Stop), Add(w.Close)
+					if op.Arg.Method != nil && (op.Arg.Method.Name() == "Unsubscribe" || op.Arg.Method.Name() == "Stop" || op.Arg.Method.Name() == "Close") {
 						from := resNode(info(op.Pkg), op.Arg.Recv, recvExprOfSel(op.Arg.Expr))
 						if from != "" && to != "" {
 							ra.edges[from] = append(ra.edges[from], to)
@@ -90,6 +91,11 @@ func analyseRelease(m *model.Model, sc *model.SC) *releaseAnalysis {
 					if op.Arg.Lit != nil && to != "" {
 						litOwner[op.Arg.Lit] = to
 					}
+				}
+			}
+			if sel, ok := ast.Unparen(op.ArgExpr).(*ast.SelectorExpr); ok && (op.Arg == nil || op.Arg.Kind != model.AVMethodVal) && (sel.Sel.Name == "Stop" || sel.Sel.Name == "Close") {
+				if from := resNode(info(op.Pkg), nil, sel.X); from != "" && to != "" {
+					ra.edges[from] = append(ra.edges[from], to)
 				}
 			}
 		}
